@@ -476,6 +476,10 @@ func (c *Coordinator) assignNoScrapingTargets(
 			assignNoScrapingTargetsTotal.WithLabelValues().Inc()
 		} else {
 			// no shard avaliable
+			// (a target that exposes nothing yet still needs a place: without any needed space no shard would be requested for it)
+			if tarSp.isZero() {
+				tarSp.processSpace = 1
+			}
 			needSp.add(tarSp)
 		}
 	}
